@@ -37,7 +37,8 @@ func c11isConsulQuery(name string) bool {
 // that hands its parameter on to such a wrapper is one as well.
 func c11blockingWrappers(c *Ctx, pkg string) map[*ssa.Function]int {
 	out := map[*ssa.Function]int{}
-	fns := c.fnsWhere(pkg, func(f *ssa.Function) bool { return f.Parent() == nil })
+	// closures too: `fetch := func(idx uint64) (...) { return getCerts(client, key, idx) }` handed to the watch loop
+	fns := c.fnsWhere(pkg, func(f *ssa.Function) bool { return true })
 	paramIdx := func(f *ssa.Function, v ssa.Value) int {
 		for k, p := range f.Params {
 			pp := p
@@ -174,6 +175,9 @@ func c11pacing(wrappers map[*ssa.Function]int) func(ssa.Instruction, *loop) bool
 		if consulQueryPaced(i, l) {
 			return true
 		}
+		if l != nil && c11pacedByOwnVerdict(call, l) {
+			return true
+		}
 		if arg, isW := c11wrapperArg(call, wrappers); isW {
 			return c11waitIndexAdvances(call, arg, l)
 		}
@@ -200,6 +204,60 @@ func c11pacing(wrappers map[*ssa.Function]int) func(ssa.Instruction, *loop) bool
 	}
 }
 
+// c11verdictEdges: call is a call of a repository helper whose boolean result decides the branch its own block ends in
+// (`for !w.step() {}`, `if done := w.step(); done { return }`): the helper, the index of that result, and for each
+// successor of the block the truth value the result has on that edge. An empty loop body is threaded away by the SSA
+// builder, so the edge back to the loop head may leave this very block: no block lies under the fact.
+func c11verdictEdges(call *ssa.Call) (h *ssa.Function, idx int, truths [2]bool, ok bool) {
+	b := call.Block()
+	if b == nil || len(b.Instrs) == 0 || len(b.Succs) != 2 || b.Succs[0] == b.Succs[1] {
+		return nil, 0, truths, false
+	}
+	iff, isIf := b.Instrs[len(b.Instrs)-1].(*ssa.If)
+	if !isIf {
+		return nil, 0, truths, false
+	}
+	cond, t := iff.Cond, true
+	for {
+		u, isNot := cond.(*ssa.UnOp)
+		if !isNot || u.Op != token.NOT {
+			break
+		}
+		cond, t = u.X, !t
+	}
+	if e, isX := cond.(*ssa.Extract); isX {
+		cond, idx = e.Tuple, e.Index
+	}
+	if cond != ssa.Value(call) {
+		return nil, 0, truths, false
+	}
+	if h = c11callee(&call.Call); h == nil {
+		return nil, 0, truths, false
+	}
+	return h, idx, [2]bool{t, !t}, true
+}
+
+// c11pacedByOwnVerdict: the block of call ends in a branch on call's own verdict, and on every edge of that branch that
+// stays in the loop the helper has slept or blocked before returning that verdict (the other edges leave the loop: a
+// step method that returns `true` at once when the watcher was stopped).
+func c11pacedByOwnVerdict(call *ssa.Call, l *loop) bool {
+	h, idx, truths, ok := c11verdictEdges(call)
+	if !ok {
+		return false
+	}
+	inLoop := 0
+	for k, s := range call.Block().Succs {
+		if !l.Body[s] {
+			continue
+		}
+		inLoop++
+		if !c11pacesBeforeReturn(h, idx, truths[k]) {
+			return false
+		}
+	}
+	return inLoop > 0
+}
+
 // c11pacedByVerdict: block b lies under the fact "helper h, called in this iteration of l, returned T", and h sleeps or
 // blocks on every path that ends in `return T` (the step helper that sends on success and reports failure to a caller
 // that sleeps, or the other way round).
@@ -224,10 +282,15 @@ func c11pacedByVerdict(b *ssa.BasicBlock, l *loop) bool {
 // constant result decides by itself; a computed verdict (`return err == nil`) can be `truth` only on the paths that took
 // the branches on that same condition the matching way.
 func c11pacesBeforeReturn(h *ssa.Function, idx int, truth bool) bool {
-	if len(h.Blocks) == 0 {
+	return c11allWaysToVerdict(h, idx, truth, liftMust(c11basicPacing, 1))
+}
+
+// c11allWaysToVerdict: every path of h from its entry to a return whose result idx can be `truth` passes an instruction
+// satisfying paces (pacing for L1, an examination of the source for L7).
+func c11allWaysToVerdict(h *ssa.Function, idx int, truth bool, paces func(ssa.Instruction) bool) bool {
+	if h == nil || len(h.Blocks) == 0 {
 		return false
 	}
-	paces := liftMust(c11basicPacing, 1)
 	nRet := 0
 	ok := true
 	eachInstr(h, func(i ssa.Instruction) {
@@ -417,12 +480,14 @@ func c11errEdgeSpins(call *ssa.Call, l *loop, wrappers map[*ssa.Function]int, sl
 }
 
 func runC11L1(c *Ctx) {
+	c11useCtx(c)
 	wrappers := c11blockingWrappers(c, "cert")
 	extra := c11pacing(wrappers)
 	old := extraPacing
 	extraPacing = extra
 	defer func() { extraPacing = old }()
 	runLoopPacing(c, "C11.L1", []string{"cert"}, 1)
+	c11runCondLoopPacing(c, "C11.L1") // the same for watch loops written with a condition (c11_round5.go)
 
 	// W3 for the Consul watcher, queries found by role (looppace.go's runConsulWatchLoops names cert.getCerts)
 	sleeps := func(in ssa.Instruction) bool {
@@ -447,7 +512,7 @@ func runC11L1(c *Ctx) {
 	}
 	n := 0
 	for _, f := range c.fnsWhere("cert", func(*ssa.Function) bool { return true }) {
-		for _, l := range condLessLoops(f) {
+		for _, l := range c11watchLoops(f) {
 			for b := range l.Body {
 				for _, in := range b.Instrs {
 					call, ok := in.(*ssa.Call)
